@@ -9,6 +9,11 @@ import os, subprocess, tempfile, time, z3
 from fractions import Fraction
 
 THOROUGH = False
+DEADLINE = [None]        # wall-clock budget of the current verification job (one function / shard)
+
+
+def over_budget():
+    return DEADLINE[0] is not None and time.time() > DEADLINE[0]
 STATS = {"z3py": 0, "z3py_fresh": 0, "cvc5": 0, "z3-4.8": 0, "solver_s": 0.0, "cross_checked": 0,
          "cross_disagree": 0}
 CROSS = []      # (name, {backend: verdict}) in the thorough tier
@@ -83,6 +88,9 @@ def discharge(I, name, goal, kind="vc", detail=""):
     t0 = time.time()
     if isinstance(goal, bool):
         goal = z3.BoolVal(goal)
+    if over_budget() and not z3.is_true(goal) and not z3.is_false(goal):
+        STATS["budget_skipped"] = STATS.get("budget_skipped", 0) + 1
+        return Obligation(name, "unknown", "none(time budget of the job exhausted)", 0, path=list(I.dec), detail=detail, kind=kind)
     neg = z3.Not(goal)
     # tier 1: non-linear arithmetic abstracted to uninterpreted functions (sound for `unsat`)
     ra = I.asolver.check(I.abs.ab(neg))
